@@ -54,6 +54,17 @@ func valid(c Case) bool {
 		}
 		return false
 	}
+	for _, p := range c.Pkgs {
+		for _, h := range p.Headers { // an entry for a file the package does not have is ignored
+			known := false
+			for _, k := range headerKinds {
+				known = known || h == k
+			}
+			if !known {
+				return false
+			}
+		}
+	}
 	for i, p := range c.Pkgs {
 		names := map[string]bool{}
 		for _, d := range p.Decls {
@@ -198,6 +209,15 @@ func reductions(c Case) []Case {
 			}
 			x.Cfgs = keep
 		})
+	}
+	for i := range c.Pkgs {
+		i := i
+		for _, f := range c.Pkgs[i].files() {
+			f := f
+			if _, ok := c.Pkgs[i].Headers[f]; ok {
+				try(func(x *Case) { delete(x.Pkgs[i].Headers, f) })
+			}
+		}
 	}
 	for i := range c.Pkgs {
 		for j := range c.Pkgs[i].Decls {
